@@ -13,8 +13,7 @@
                                the board afterwards, re-keying decision)
      frame q a tail trailer    STX master a command id ++ tail [++ xor EOT]
      handle sl t m             System._parse: new map, new tick, outcome (OTrue / OReply r / OExc) *)
-From DS Require Import Base.Prelude Gen.RcvTables Model.RcvModel Proofs.RcvAssoc Proofs.RcvProofs
-  Proofs.RcvBoards Proofs.RcvFraming Proofs.RcvExamples.
+From DS Require Import Base.Prelude Gen.RcvTables Model.RcvModel Proofs.RcvAssoc Proofs.RcvProofs Proofs.RcvBoards Proofs.RcvFraming Proofs.RcvExamples.
 
 (* ---- what the two request forms are, byte for byte, and what _parse reads off them ---- *)
 Theorem C18_decode_abbr : forall k sa ma cid p fill,
@@ -201,3 +200,35 @@ Theorem C18_tables_kinds : forall k,
   with_params (ext_code k) = has_params k /\ with_params (abbr_code k) = has_params k.
 Proof. exact kinds_ok. Qed.
 Print Assumptions C18_tables_kinds.
+
+Theorem C18_tables_golden :
+  CMD_SOH = 1 /\ CMD_STX = 2 /\ CMD_ETX = 3 /\ CMD_EOT = 4 /\
+  CMD_EXT_NO_PARAMS = [65; 66; 67; 68; 69; 70; 72; 74] /\ CMD_EXT_WITH_PARAMS = [71; 73; 75; 76; 77; 78; 79] /\
+  CMD_ABBR_NO_PARAMS = [97; 98; 99; 100; 101; 102; 104; 106] /\
+  CMD_ABBR_WITH_PARAMS = [103; 105; 107; 108; 109; 110; 111] /\
+  CMD_EXT = CMD_EXT_NO_PARAMS ++ CMD_EXT_WITH_PARAMS /\
+  ACCEPTED_COMMANDS = CMD_EXT_NO_PARAMS ++ CMD_EXT_WITH_PARAMS ++ CMD_ABBR_NO_PARAMS ++ CMD_ABBR_WITH_PARAMS /\
+  SLAVE_ADDR_ACCEPTED = map Z.of_nat (seq 1 126) /\ FRAME_SIZE_ACCEPTED = map Z.of_nat (seq 1 126) /\
+  DATA_TYPES = map Z.of_nat (seq 0 27) ++ map Z.of_nat (seq 32 26) ++ [64] /\
+  PORT_TYPES = map Z.of_nat (seq 0 9) ++ [64; 122; 123; 124; 125; 126; 127] /\
+  PORT_NUMBERS = map Z.of_nat (seq 0 118) /\
+  VERSION = [0; 0; 0; 0; 0; 0; 0; 0] /\
+  DATA_TYPE_B01 = 3 /\ DATA_TYPE_U08 = 8 /\ DATA_TYPE_F32 = 24 /\ PORT_TYPE_DIO = 4 /\ PORT_TYPE_AD24 = 8 /\
+  PORT_NUMBER_00_07 = 96.
+Proof. exact golden_tables. Qed.
+Print Assumptions C18_tables_golden.
+
+Theorem C18_tables_dio_chains :
+  DEWAR_get_data_ports = [PORT_NUMBER_00; PORT_NUMBER_04; PORT_NUMBER_05; PORT_NUMBER_06; PORT_NUMBER_07;
+    PORT_NUMBER_08; PORT_NUMBER_11; PORT_NUMBER_12; PORT_NUMBER_13; PORT_NUMBER_14; PORT_NUMBER_16;
+    PORT_NUMBER_17; PORT_NUMBER_18; PORT_NUMBER_24; PORT_NUMBER_26; PORT_NUMBER_29; PORT_NUMBER_30] /\
+  DEWAR_set_data_ports = [PORT_NUMBER_00; PORT_NUMBER_04; PORT_NUMBER_05; PORT_NUMBER_07; PORT_NUMBER_08;
+    PORT_NUMBER_11; PORT_NUMBER_12; PORT_NUMBER_13; PORT_NUMBER_14] /\
+  SWITCH_get_data_ports = [PORT_NUMBER_00; PORT_NUMBER_01; PORT_NUMBER_02; PORT_NUMBER_04; PORT_NUMBER_05;
+    PORT_NUMBER_06; PORT_NUMBER_07; PORT_NUMBER_08; PORT_NUMBER_11; PORT_NUMBER_12; PORT_NUMBER_13;
+    PORT_NUMBER_14; PORT_NUMBER_16; PORT_NUMBER_17; PORT_NUMBER_18; PORT_NUMBER_19; PORT_NUMBER_24;
+    PORT_NUMBER_26; PORT_NUMBER_29; PORT_NUMBER_30] /\
+  SWITCH_set_data_ports = [PORT_NUMBER_00; PORT_NUMBER_01; PORT_NUMBER_02; PORT_NUMBER_04; PORT_NUMBER_05;
+    PORT_NUMBER_07; PORT_NUMBER_08; PORT_NUMBER_11; PORT_NUMBER_12; PORT_NUMBER_13; PORT_NUMBER_14].
+Proof. exact dio_chains_ok. Qed.
+Print Assumptions C18_tables_dio_chains.
